@@ -1530,6 +1530,10 @@ def _(eng, ci, a, dt):
         raise Unsupported('Range::contains type in %s' % ci.text)
     if isinstance(r, RangeIncl):
         return bool_and(ops.int_binop('Ge', x, r.lo, w, s), ops.int_binop('Le', x, r.hi, w, s))
+    if type(r) is not Agg or len(r.f) < 2:
+        raise Unsupported('Range::contains on %r' % (r,))
+    if 'RangeInclusive' in ci.text:
+        return bool_and(ops.int_binop('Ge', x, r.f[0], w, s), ops.int_binop('Le', x, r.f[1], w, s))
     return bool_and(ops.int_binop('Ge', x, r.f[0], w, s), ops.int_binop('Lt', x, r.f[1], w, s))
 
 
